@@ -2,6 +2,13 @@
 from ..facts import strip_transparent, children
 
 
+FN_ALIAS = {}   # local function path -> reference name of the role it fills (installed by common.install_aliases)
+
+
+def fn_name(path, default):
+    return FN_ALIAS.get(path or "", default)
+
+
 def short_path(p):
     return (p or "?").split("::")[-1]
 
@@ -56,7 +63,7 @@ def expr_str(n, names=None, depth=0):
             return res["name"]
         if "value" in res and isinstance(res["value"], (str, int)):
             return repr(res["value"])
-        return res.get("variant") or short_path(res.get("path"))
+        return res.get("variant") or fn_name(res.get("path"), short_path(res.get("path")))
     if k == "Lit":
         return repr(n.get("v"))
     if k == "Field":
@@ -72,9 +79,9 @@ def expr_str(n, names=None, depth=0):
     if k == "MethodCall":
         if n["method"] in ("clone", "into", "to_owned", "as_ref", "as_deref", "borrow", "to_string", "as_str") and not n["args"]:
             return r(n["recv"])
-        return "%s.%s(%s)" % (r(n["recv"]), n["method"], ", ".join(r(a) for a in n["args"]))
+        return "%s.%s(%s)" % (r(n["recv"]), fn_name(n.get("callee"), n["method"]), ", ".join(r(a) for a in n["args"]))
     if k == "Call":
-        cal = short_path(n.get("callee")) if n.get("callee") else r(n.get("f"))
+        cal = fn_name(n.get("callee"), short_path(n.get("callee"))) if n.get("callee") else r(n.get("f"))
         if (n.get("callee") or "").endswith("Box::<T>::new") and len(n["args"]) == 1:
             return r(n["args"][0])
         if n.get("callee") in ("core::convert::From::from", "core::convert::Into::into") and len(n["args"]) == 1:
